@@ -768,6 +768,8 @@ class LiteralEncoder(BaseEncoder):
     @classmethod
     def condition(cls, ref, writer):
         value = ref.value
+        if ref.refmode in ("absolute", "relative"):
+            return False    # Use PickleEncoder to keep the reference mode
         return any(type(value) is t for t in cls.literal_types)
 
     def encode(self):
@@ -814,6 +816,9 @@ class ModuleEncoder(BaseEncoder):
             return isinstance(value, types.ModuleType)
 
     def encode(self):
+        if self.target.refmode in ("absolute", "relative"):
+            return "(\"Module\", \"%s\", \"%s\")" % (
+                self.target.value.__name__, self.target.refmode)
         return "(\"Module\", \"%s\")" % self.target.value.__name__
 
 
@@ -830,6 +835,9 @@ class PickleEncoder(BaseEncoder):
             self.writer.pickledata[key] = value
 
     def encode(self):
+        if self.target.refmode in ("absolute", "relative"):
+            return "(\"Pickle\", %s, \"%s\")" % (
+                id(self.target.value), self.target.refmode)
         return "(\"Pickle\", %s)" % id(self.target.value)
 
     def instruct(self):
